@@ -18,6 +18,7 @@ def run(rep: Report, repo: Repo, tier: str) -> None:
     bindings.rule_generic_binding(rep, repo, "C02-R6")
     writer_rules.rule_values_verbatim(rep, repo, "C02-R7")
     atn_rules.rule_file_grammar(rep, repo, "C02-R5")
+    _late_rules(rep, repo)
     if tier == "thorough":
         from . import trace_rules
         trace_rules.rule_entry_traces(rep, repo, "C02-I")
@@ -49,3 +50,10 @@ def rule_consumption(rep: Report, repo: Repo, rule: str) -> None:
         rep.check(r.warned and not r.entries, rule, WHERE + ".enterBracket_doccomment", "dangling doccomment: warned, no entry",
                   "a doccomment that is not followed by a command produces an entry or passes silently")
     rep.floor(rule, 15, "consumption facts")
+
+
+def _late_rules(rep, repo):
+    from . import bindings, render
+    bindings.rule_test_bindings(rep, repo, "C02-R8", "C02-R8f")        # "arguments as written and in order" for the CTest kind
+    render.rule_render_total(rep, repo, "C02-R9")                       # members appear: rendering cannot raise
+    protocol.rule_rejections(rep, repo, "C02-R10")
